@@ -14,11 +14,26 @@
            term   : every terminal of the tree satisfies `termSyn` (a self-contained operand)
            clean  : every terminal of the tree satisfies `clean` (hypothesis of seq_replace_ok)
            adm    : the program satisfies `Admissible`, the hypothesis of the theorems
+           exact  : every numeric constant of the program prints exactly (`exact6` / `intExact`)
+    gchk <fmt 0..3> <hex text printed by vita> <nrows> <ncats> <gene>*(nrows*ncats) <tree>
+        -> the flags of `chk` computed on the program UNFOLDED by the model from locus [0,0] of the
+           genome (row-major matrix), `render` being `exportG` (language() reading genes by locus), plus
+           unf    : the unfolded program equals <tree> (the generator's own unfolding)
+           wf     : the matrix satisfies `wfRows` (= i_mep::is_valid's argument-row conditions)
+        gene ::= T <terminal index> <hex text> <bits> | F <symbol index> <n> (<arg category> <arg row>)*n
+    team <fmt> <hex text printed for the team> <k> <member text hex>*k
+        -> `team=b lines=b` : the team loop (extracted body, flag language_f + fmt) run on the members'
+           texts gives the team's text / splitLines gives the members' texts back
+    stream <op>*     ops as in the harness: c cpp mql py list dump inline tree graphviz long short pf<n> print fresh
+        -> one `flag:long:L<k>` (language(symbol::format(k))) or `flag:long:F<callee>` per print
     term <fmt> <k> <hex text> <bits>   -> hex of the terminal's display
     parse <fmt> <hex>                  -> `some`/`none` and the token count
   tree ::= F <symbol index> <n> tree*n | T <terminal index> <hex text> <bits>
 -/
 import Vita.C19.Model
+import Vita.C19.Genome
+import Vita.C19.GenExport
+import Vita.C19.Exact
 open Vita.C19
 
 def hexVal (c : Char) : Nat :=
@@ -83,6 +98,70 @@ def dispName (ps : List TPart) : String :=
     | .name => "name"
     | .quote => "quote")
 
+
+mutual
+  def treeEq : Tree → Tree → Bool
+    | .tm k1 t1 b1, .tm k2 t2 b2 => k1 == k2 && t1 == t2 && b1 == b2
+    | .fn s1 k1, .fn s2 k2 => s1 == s2 && forestEq k1 k2
+    | _, _ => false
+  def forestEq : Forest → Forest → Bool
+    | .nil, .nil => true
+    | .cons a r, .cons b q => treeEq a b && forestEq r q
+    | _, _ => false
+end
+
+/-- one gene of the matrix -/
+def readGene : List String → Option (Gene × List String)
+  | "T" :: k :: h :: b :: r =>
+      match k.toNat?, b.toNat? with
+      | some k, some b => some (.tm k (unhex h) b, r)
+      | _, _ => none
+  | "F" :: s :: n :: r =>
+      match s.toNat?, n.toNat? with
+      | some s, some n =>
+          let rec go (m : Nat) (ac ar : List Nat) (r : List String) : Option (Gene × List String) :=
+            match m, r with
+            | 0, r => some (.fn s ac.reverse ar.reverse, r)
+            | m + 1, c :: a :: r' =>
+                match c.toNat?, a.toNat? with
+                | some c, some a => go m (c :: ac) (a :: ar) r'
+                | _, _ => none
+            | _, _ => none
+          go n [] [] r
+      | _, _ => none
+  | _ => none
+
+def readRow : Nat → List String → Option (List Gene × List String)
+  | 0, r => some ([], r)
+  | n + 1, r => match readGene r with
+                | some (g, r') => match readRow n r' with
+                                  | some (gs, r'') => some (g :: gs, r'')
+                                  | none => none
+                | none => none
+
+def readRows : Nat → Nat → List String → Option (List (List Gene) × List String)
+  | 0, _, r => some ([], r)
+  | n + 1, c, r => match readRow c r with
+                   | some (row, r') => match readRows n c r' with
+                                       | some (rows, r'') => some (row :: rows, r'')
+                                       | none => none
+                   | none => none
+
+/-- the flags of `chk` for the tree `t`, `model` being the text the model prints -/
+def flags (f : Fmt) (text model : List Ch) (t : Tree) : String :=
+  let fns := Gen.functions
+  let tms := Gen.terminals
+  let sim := stripOuter (simT fns tms f t)
+  let toks := lexS f text
+  let a := astT fns tms f t
+  let want := stripAst a
+  let fl := firstList fns tms f
+  s!"render={b01 (model == text)} sim={b01 (sim == model)} lex={b01 (toks == stripToks (toksT fns tms f t))} " ++
+  s!"parse={b01 (parse f toks == some want)} ok={b01 (ok f hl a && flat want == toks)} " ++
+  s!"term={b01 (termsOk (termSyn f fl) f t)} clean={b01 (termsOk clean f t)} " ++
+  s!"adm={b01 (wfT fns t && termsT (termOk f fl) tms f t && termsT (rendOk f fl) tms f t)} " ++
+  s!"exact={b01 (exactT tms f t)}"
+
 def answer (line : String) : String :=
   match line.trimAscii.toString.splitOn " " with
   | ["tables"] =>
@@ -96,20 +175,53 @@ def answer (line : String) : String :=
       match fm.toNat?, readTree 100000 rest with
       | some fi, some (t, []) =>
           let f := Fmt.ofIdx fi
-          let fns := Gen.functions
-          let tms := Gen.terminals
           let text := unhex h
-          let model := language fns tms f t
-          let sim := stripOuter (simT fns tms f t)
-          let toks := lexS f text
-          let a := astT fns tms f t
-          let want := stripAst a
-          let fl := firstList fns tms f
-          s!"render={b01 (model == text)} sim={b01 (sim == model)} lex={b01 (toks == stripToks (toksT fns tms f t))} " ++
-          s!"parse={b01 (parse f toks == some want)} ok={b01 (ok f hl a && flat want == toks)} " ++
-          s!"term={b01 (termsOk (termSyn f fl) f t)} clean={b01 (termsOk clean f t)} " ++
-          s!"adm={b01 (wfT fns t && termsT (termOk f fl) tms f t && termsT (rendOk f fl) tms f t)}" ++ (if model == text then "" else " " ++ hex model)
+          let model := language Gen.functions Gen.terminals f t
+          flags f text model t ++ (if model == text then "" else " " ++ hex model)
       | _, _ => "bad-op"
+  | "gchk" :: fm :: h :: nr :: nc :: rest =>
+      match fm.toNat?, nr.toNat?, nc.toNat? with
+      | some fi, some nr, some nc =>
+          match readRows nr nc rest with
+          | some (rows, rest') =>
+              match readTree 100000 rest' with
+              | some (t, []) =>
+                  let f := Fmt.ofIdx fi
+                  let text := unhex h
+                  let g := Genome.ofRows rows
+                  let model := exportG Gen.functions Gen.terminals f g nr ⟨0, 0⟩
+                  let t' := unfoldG Gen.functions g nr ⟨0, 0⟩
+                  flags f text model t' ++ s!" unf={b01 (treeEq t t')} wf={b01 (wfRows Gen.functions rows)}" ++
+                    (if model == text then "" else " " ++ hex model)
+              | _ => "bad-op"
+          | none => "bad-op"
+      | _, _, _ => "bad-op"
+  | "team" :: fm :: h :: k :: rest =>
+      match k.toNat?, fm.toNat? with
+      | some k, some fi =>
+          if rest.length != k then "bad-op" else
+          let ms := rest.map unhex
+          let text := unhex h
+          s!"team={b01 (teamExec Gen.teamBody (Gen.dispatchBase + fi) ms == text)} lines={b01 (splitLines text == ms)}"
+      | _, _ => "bad-op"
+  | "stream" :: ops =>
+      let toOp (t : String) : Option Op :=
+        match t with
+        | "c" => some (.manip "c_language" 0) | "cpp" => some (.manip "cpp_language" 0)
+        | "mql" => some (.manip "mql_language" 0) | "py" => some (.manip "python_language" 0)
+        | "list" => some (.manip "list" 0) | "dump" => some (.manip "dump" 0)
+        | "inline" => some (.manip "in_line" 0) | "tree" => some (.manip "tree" 0)
+        | "graphviz" => some (.manip "graphviz" 0) | "long" => some (.manip "long_form" 0)
+        | "short" => some (.manip "short_form" 0) | "print" => some .print | "fresh" => some .fresh
+        | _ => if t.startsWith "pf" then (t.drop 2).toNat?.map (.manip "print_format" ·) else none
+      match ops.mapM toOp with
+      | some os =>
+          let out := runOps Gen.manipulators Gen.dispatchCases Gen.dispatchBase Gen.formatSlot Gen.longSlot
+                       StreamSt.fresh os
+          if out.isEmpty then "-" else
+          " ".intercalate (out.map fun (pf, lf, sh) =>
+            s!"{pf}:{lf}:" ++ (match sh with | .lang k => s!"L{k}" | .fn c => "F" ++ c))
+      | none => "bad-op"
   | ["term", fm, k, h, b] =>
       match fm.toNat?, k.toNat?, b.toNat? with
       | some fi, some k, some b => hex (termStr Gen.terminals (Fmt.ofIdx fi) k (unhex h) b)
